@@ -124,7 +124,7 @@ def _rows(x, k):
     return v[:, k] if v is not None else np.array([x.vals[k]])
 
 
-def record_run(model, path, wid="run", steps=None, corrupt=None, world=None, init=None):
+def record_run(model, path, wid="run", steps=None, corrupt=None, world=None, init=None, dbtot=None):
     """Write the NDJSON trace of a processed model. steps: iterable of time indices (default all).
     corrupt: optional callable(event_dict_of_floats) used by the negative controls."""
     hdr, comps, links, pars = world_header(model, world) if world is not None else model_header(model, wid)
@@ -144,7 +144,7 @@ def record_run(model, path, wid="run", steps=None, corrupt=None, world=None, ini
                       nx=[[float(y) for y in _rows(c, k + 1)] for c in comps],
                       ca=[ca.get(id(l)) for l in links],
                       outc=[oc.get(id(c)) for c in comps],
-                      init=(init if (init is not None and k == 0) else None))
+                      init=(init if (init is not None and k == 0) else None), dbtot=(dbtot if k == 0 else None))
             if corrupt:
                 corrupt(ev)
             f.write(json.dumps(encode_event(ev)) + "\n")
@@ -177,18 +177,21 @@ def encode_event(ev):
             oc.append([fx(v, "outc%d" % i)])
     out["outc"] = oc
     out["init"] = [[fx(v, "init%d" % i) for v in rows] for i, rows in enumerate(ev["init"])] if ev.get("init") is not None else []
+    db = ev.get("dbtot")
+    out["dbhas"] = [v is not None for v in db] if db is not None else []
+    out["dbtot"] = [fx(v if v is not None else 0.0, "dbtot%d" % i) for i, v in enumerate(db)] if db is not None else []
     out["nonfinite"] = nonfinite
     return out
 
 
 ALL_CLAUSES = ["Balance", "JunctionPass", "Global", "NonNeg", "Finite", "NoOverdraw", "Ratio", "NegZero", "ConvertRel", "ResolveRel",
-               "JEmpty", "JSplit", "FlushConserves", "Rows", "ShiftRel", "FlushAll", "Bound", "NotEarly"]
+               "JEmpty", "JSplit", "FlushConserves", "Rows", "ShiftRel", "FlushAll", "Bound", "NotEarly", "InitSpread"]
 CLAUSES = {
     "C01": ["Balance", "JunctionPass", "Global", "FlushConserves"],
     "C02": ["NonNeg", "Finite", "NoOverdraw", "Ratio", "NegZero"],
     "C03": ["ConvertRel", "ResolveRel", "Balance"],  # (the stock update is part of "every compartment trajectory")
     "C04": ["JEmpty", "JSplit", "JunctionPass", "FlushConserves"],
-    "C05": ["Rows", "ShiftRel", "FlushAll", "Bound", "NotEarly"],
+    "C05": ["Rows", "ShiftRel", "FlushAll", "Bound", "NotEarly", "InitSpread"],
 }
 
 
